@@ -57,8 +57,20 @@ var c15Operands = []c15Operand{
 	{"struct", structT{1, "b", nil}, nil, false, true},
 	{"Stringer", strT{"str"}, nil, false, true},
 	{"panicking Stringer", panStrT{"boom"}, nil, false, true},
+	{"SafeFormatter re-entering Printf(%w)", reSFw{}, nil, true, true},
+	{"error+SafeFormatter re-entering Printf(%w)", reSFwErr{}, reSFwErr{}, true, false},
 	{"error whose Error panics", panErrT{"eboom"}, panErrT{"eboom"}, false, false},
 }
+
+// reSFw: a SafeFormatter whose SafeFormat method re-enters the printer with a %w of its own.
+type reSFw struct{}
+
+func (reSFw) SafeFormat(p redact.SafePrinter, _ rune) { p.Printf("in %w|%d", c15e2, 3) }
+
+type reSFwErr struct{}
+
+func (reSFwErr) Error() string                           { return "reSFwErr" }
+func (reSFwErr) SafeFormat(p redact.SafePrinter, _ rune) { p.SafeString("E:"); p.Printf("%w", c15e2) }
 
 type sentinel struct {
 	i   int
@@ -253,7 +265,7 @@ func checkC15(c *Ctx) {
 		for oi := 0; oi < oe.Total; oi++ {
 			ops := oe.Tokens(oi)
 			pres := []int{(i + oi) % len(c15Pre)}
-			if len(toks) <= 2 {
+			if len(toks) <= 1 || (!c.Quick() && len(toks) <= 2) {
 				pres = seq(len(c15Pre))
 			}
 			for _, pre := range pres {
